@@ -315,6 +315,7 @@ pub fn run(a: &Args) {
     let large = a.num("large", 1) as usize;
     let tmp = TmpDir::new(&out, "codec");
     let cases_file = a.0.get("casefile").cloned();
+    let nonan = a.has("nonan");
     let mut total_cases = 0usize;
     let mut total_lines = 0usize;
     let mut files = vec![];
@@ -351,7 +352,7 @@ pub fn run(a: &Args) {
             for k in 0..per_type {
                 let g = if k % 3 == 2 { GenCfg::medium() } else { GenCfg::small() };
                 let n = 1 + r.below(4);
-                let shapes: Vec<AShape> = (0..n).map(|_| gen_shape(&mut r, t, &g)).collect();
+                let shapes: Vec<AShape> = (0..n).map(|_| gen_shape_with(&mut r, t, &g, nonan)).collect();
                 id += 1;
                 run_case(&mut tr, &c, &prop, t, &shapes, &tmp.0, id);
             }
@@ -365,7 +366,7 @@ pub fn run(a: &Args) {
             }
             for _ in 0..large {
                 let n = 1 + r.below(3);
-                let shapes: Vec<AShape> = (0..n).map(|_| gen_shape(&mut r, t, &GenCfg::large())).collect();
+                let shapes: Vec<AShape> = (0..n).map(|_| gen_shape_with(&mut r, t, &GenCfg::large(), nonan)).collect();
                 id += 1;
                 run_case(&mut tr, &c, &prop, t, &shapes, &tmp.0, id);
             }
